@@ -6,8 +6,11 @@ from ..genmod import Builder
 
 EXTRA = ["COMMAND", "exe", "${exe}", '"my exe"', "--x", "WORKING_DIRECTORY", "${CMAKE_BINARY_DIR}", "CONFIGURATIONS", "Debug",
          "MYNAME", "NAME_X", "XNAME", "EXPECTFAILURE", "NOEXPECTFAIL", "COMMAND_EXPAND_LISTS", "-DNAME=1", '"NAME"',
-         "[[NAME]]", "a;b", "name_", "expectfail_", "$<TARGET_FILE:t>"]
-CT_EXTRA = ["PRINT_ERRORS", "5", "MYNAME", "EXPECTFAILURE", "XEXPECTFAIL", "${opt}", '"EXPECTFAIL"', "[[EXPECTFAIL]]", "LABEL"]
+         "[[NAME]]", "a;b", "name_", "expectfail_", "$<TARGET_FILE:t>", '"printf \'%s|%s\'  a   b"', '"tab\there"', "[[two  blanks  inside]]",
+         '"  leading and trailing  "', "fail", "expect", "T", "x"]
+CT_EXTRA = ["PRINT_ERRORS", "5", "MYNAME", "EXPECTFAILURE", "XEXPECTFAIL", "${opt}", '"EXPECTFAIL"', "[[EXPECTFAIL]]", "LABEL",
+            "fail", "expect", "E", "IL", "T", "x", "pectf", "Fail"]
+FRAGMENT_NAMES = ["fail", "expect", "t", "x", "EXPECT", "pectf", "Fail", "e", "il", "EXPECTFAI"]
 
 
 class TBuilder(Builder):
@@ -29,6 +32,8 @@ class TBuilder(Builder):
         r = self.rng
         uid = self.new_uid()
         nm = self.name("sec" if section else "tst", uid)
+        if r.random() < 0.08:
+            nm = r.choice(FRAGMENT_NAMES)        # a name that happens to be a fragment of a keyword
         if section and self.section_names and r.random() < 0.15:
             nm = r.choice(self.section_names)        # the same section name again, e.g. in another test
             self.reused_names += 1
